@@ -274,15 +274,17 @@ def run_getenc(case):
     classes = ["mode:getenc"] + list(case.get("classes", []))
     nt = bool(case.get("nt"))
     diff = [x if isinstance(x, int) else LIT(x) for x in case["diff"]]
+    shared = ["StandardEncoding", "MacRomanEncoding", "WinAnsiEncoding", "PDFDocEncoding", enc]
     try:
-        before = dict(EncodingDB.get_encoding(enc))
+        before = {n: dict(EncodingDB.get_encoding(n)) for n in shared}
         got = EncodingDB.get_encoding(enc, diff)
-        after = dict(EncodingDB.get_encoding(enc))
+        after = {n: dict(EncodingDB.get_encoding(n)) for n in shared}
     except Exception as e:
         return Outcome(classes, nt, fail="get_encoding(%r, %r) raised %s: %s" % (enc, case["diff"], type(e).__name__, e))
-    if before != after:
-        return Outcome(classes, nt, fail="get_encoding(%r, diff) modified the shared base table: %r" % (
-            enc, sorted(set(before.items()) ^ set(after.items()))[:6]))
+    for n in shared:
+        if before[n] != after[n]:
+            return Outcome(classes, nt, fail="get_encoding(%r, %r) modified the shared table %s: %r" % (
+                enc, case["diff"], n, sorted(set(before[n].items()) ^ set(after[n].items()))[:6]))
     expect = case["expect"]
     kf = set(case.get("kf") or ())
     bad = []
@@ -495,11 +497,16 @@ BASES = F.ENCODING_NAMES
 def getenc_cases(draw):
     rnd = random.Random(draw(st.integers(0, 2 ** 32)))
     enc = draw(st.sampled_from(BASES))
+    # a base encoding the library has no table for (it falls back to another table): only the codes that
+    # /Differences assigns are asserted, but the shared tables must stay untouched
+    unknown = draw(st.integers(0, 6)) == 0
     runs, kinds = _draw_runs(draw, rnd)
     diff = []
+    assigned = set()
     for first, names in runs:
         diff.append(first)
         diff.extend(names)
+        assigned.update(range(first, first + len(names)))
     spec = {"flavor": "plain", "subtype": "Type1", "enc": {"base": enc, "runs": runs}, "builtin": None, "tounicode": None,
             "first": 0, "widths": [], "missing": 0, "a": None, "basefont": "X"}
     ex, kf = model(spec)
@@ -507,6 +514,11 @@ def getenc_cases(draw):
     for c in range(256):
         t = ex[c][0]
         expect[c] = None if t is None else ("" if t == "(cid:%d)" % c else t)
+        if unknown and c not in assigned:
+            expect[c] = None
+    if unknown:
+        enc = draw(st.sampled_from(["MacExpertEncoding", "NoSuchEncoding", "Symbol"]))
+        kinds = set(kinds) | {"unknown-base"}
     return {"mode": "getenc", "enc": enc, "diff": diff, "expect": expect, "kf": kf.get(KEY_DIFF_KEEPS_BASE, []),
             "classes": sorted("name:" + k for k in kinds) + ["runs:%d" % len(runs)], "nt": bool(runs)}
 
